@@ -1712,6 +1712,10 @@ func createSchemaFromTypeWithCycleDetection(fieldType reflect.Type, fieldInfo ta
 				if nilableSchema, ok := schema.(interface{ Nilable() core.ZodSchema }); ok {
 					schema = nilableSchema.Nilable()
 				}
+			} else if anySchema, ok := schema.(*ZodAny[any, any]); ok {
+				// A struct without gozod tags is not validated, but a
+				// required pointer to it must still be present
+				schema = anySchema.NonOptional()
 			}
 		}
 
